@@ -396,6 +396,8 @@ pub fn set2_encode(k: KeyCode, st: KeyState) -> Option<Vec<u8>> {
                 return None;
             }
         }
+        #[allow(unreachable_patterns)]
+        _ => return None,
     }
     if st == KeyState::Down && p == Pfx::None && (c == 0x00 || c == 0xAA) {
         return None;
@@ -414,6 +416,8 @@ pub fn set1_encode(k: KeyCode, st: KeyState) -> Option<Vec<u8>> {
         KeyState::Down => v.push(c),
         KeyState::Up => v.push(c | 0x80),
         KeyState::SingleShot => return None,
+        #[allow(unreachable_patterns)]
+        _ => return None,
     }
     Some(v)
 }
